@@ -78,3 +78,20 @@ PROPS["C08"] = dict(
     assumptions=["Core's rules as transcribed in spec/core_script.py"],
     bounded=[],
 )
+
+PROPS["C09"] = dict(
+    level="proof",
+    modules=["contracts.c_tx", "contracts.c_sighash"],
+    not_decided=["PSBT-level and streamed-view digests", "legacy digest (script walking over symbolic scripts): bounded stand-in"],
+    assumptions=["sha256 is a function (uninterpreted); BIP143/BIP341 layouts as transcribed in spec/sighash.py"],
+    bounded=[],
+)
+
+PROPS["C07"] = dict(
+    level="other",
+    modules=["contracts.c_bip32"],
+    not_decided=["derivation equations: bounded stand-in against an independent reference (HMAC/EC outside the executed subset for 256-bit point arithmetic)"],
+    assumptions=["HMAC-SHA512, RIPEMD160/SHA256 of hashlib"],
+    explanation="Range checks are proved for all inputs; the CKD equations, split/neuter/crack laws and SLIP132 prefixes are checked by bounded stand-ins (stated bounds) against an independent reference implementation - labelled bounded, not proved.",
+    bounded=[],
+)
